@@ -19,6 +19,8 @@ func init() {
 }
 
 func runC08(c *Ctx) {
+	c.R.Rule("RS-no-request-time-state", "request handling writes no state that outlives the request (package-level variables, objects built at start-up, constructor variables captured by handlers) declared in the packages implementing this property", 1)
+	runStateless(c, "RS-no-request-time-state", "main", "providers", "pkg/authentication")
 	r := c.R
 	r.Rule("R1-every-request", "authenticated returns of getAuthenticatedSession re-run Validator and Authorize; denied returns clear the cookie first", 4)
 	r.Rule("R2-callback", "callback saves only after Validator(session.Email) && Authorize(session)", 1)
@@ -642,6 +644,39 @@ func runWatcherReloadRule(c *Ctx, rule string) {
 			c.bad(rule, key, p.Exit, "WaitForReplacement can return without having re-added the watch: later rewrites of the file are never seen", p, p.End())
 		}
 	})
+	// ... and as soon as the file exists: os.Stat's error alone decides; the FileInfo (size, mtime, mode) plays no part.
+	// A replacement by an EMPTY file (revoke everyone) or one with an old mtime is still a replacement (round 7).
+	nstat := 0
+	for _, b := range wait.Blocks {
+		for _, in := range b.Instrs {
+			call, ok := in.(*ssa.Call)
+			if !ok || !(isStd(&call.Call, "os", "Stat") || isStd(&call.Call, "os", "Lstat")) {
+				continue
+			}
+			nstat++
+			key := "exists-is-enough|" + fnKey(wait)
+			used := false
+			if call.Referrers() != nil {
+				for _, r := range *call.Referrers() {
+					if ex, ok := r.(*ssa.Extract); ok && ex.Index == 0 && ex.Referrers() != nil {
+						for _, u := range *ex.Referrers() {
+							if _, dbg := u.(*ssa.DebugRef); !dbg {
+								used = true
+							}
+						}
+					}
+				}
+			}
+			if used {
+				c.R.Bad(rule, key, c.pos(in), "WaitForReplacement looks at the replaced file's attributes (size, modification time, mode) before re-arming the watch: a replacement that does not meet the test — an empty allow-list, an older mtime — is never reloaded and the watch is never resumed", nil, nil)
+			} else {
+				c.ok(rule, key, in, "only the error of os.Stat decides that the file is back")
+			}
+		}
+	}
+	if nstat == 0 {
+		c.R.Unknown(rule, "exists-is-enough|none", c.P.Pos(wait.Pos()), "WaitForReplacement no longer tests the file's existence with os.Stat")
+	}
 }
 
 // runC08R8: the configured allowed-groups restriction cannot silently become empty. Authorize treats an
